@@ -8,6 +8,8 @@ rsync -a --exclude .git --exclude out --exclude notebooks --exclude doc /repo/ "
 ( cd "$scratch" && patch -p1 -s < "$patch" ) || { echo "patch failed"; rm -rf "$scratch"; exit 3; }
 checks="$@"; [ -z "$checks" ] && checks="C01 C02 C03 C04 C05 C06 C07 C08 C09 C10 C11 C12 C13 C14 C15 C16 C17 C18 C19"
 for c in $checks; do
-  VERIF_REPO="$scratch" "$here/check" $c --tier ${TIER:-quick} --no-evidence 2>&1 | grep -E "^$c |VIOLATION|INCONCLUSIVE" | head -3 | cut -c1-260
+  out=$(VERIF_REPO="$scratch" "$here/check" $c --tier ${TIER:-quick} --no-evidence 2>&1)
+  echo "$out" | grep -E "VIOLATION|INCONCLUSIVE" | head -2 | cut -c1-260
+  echo "$out" | grep -E "^$c " | tail -1 | cut -c1-260
 done
 rm -rf "$scratch"
